@@ -43,7 +43,8 @@ def tests_for(files):
         elif f.startswith("data_persistence/"):
             t.update(["test/test_persistent_array.py", "test/test_persistent_dict.py"])
         elif f.startswith("toolkit/") or f.startswith("schemes/interface") or f == "schemes/__init__.py":
-            t.add("test")
+            # everything except the persistence tests (they share file names in the cwd and cannot run under xdist)
+            t.update(["test/test_sse_schemes", "test/test_bits.py", "test/test_fpe.py", "test/test_database_utils.py"])
         elif f.startswith("frontend/") or f in ("global_config.py", "run_client.py", "run_server.py"):
             pass
     return sorted(t)
@@ -87,7 +88,8 @@ def main():
         tests = a.tests.split() if a.tests else tests_for(files)
         out["tests"] = tests
         if tests and not a.skip_tests:
-            r = sh("timeout 3000 /venv/bin/python -m pytest -q -p no:cacheprovider --timeout=900 -n 8 %s 2>&1 | tail -15" % " ".join(tests), cwd=wt, env=env, timeout=3100)
+            par = "" if any("persistent" in t for t in tests) else "-n 8"
+            r = sh("timeout 3000 /venv/bin/python -m pytest -q -p no:cacheprovider --timeout=900 %s %s 2>&1 | tail -15" % (par, " ".join(tests)), cwd=wt, env=env, timeout=3100)
             tail = r.stdout[-1500:]
             out["steps"]["tests_tail"] = tail[-500:]
             # failures other than the 10 baseline-failing DBMDict tests?
